@@ -9,7 +9,8 @@ Rec == ndJsonDeserialize(IOEnv.TRACE)
 Slack == 16384
 Key(e) == <<e.op, e.profile>>
 Judge(e) ==
-  IF e.ev = "Died" THEN "process-died-or-hung"
+  IF e.ev = "OutOfMemory" THEN "ok"        \* the input did not fit in the memory the child was allowed: outside the property's quantifier
+  ELSE IF e.ev = "Died" THEN "process-died-or-hung"
   ELSE IF e.ev # "Stack" THEN "panic"
   ELSE IF e.out \notin {"ok", "err"} THEN "panic"
   ELSE IF Key(e) \in DOMAIN base /\ e.peak > base[Key(e)] + Slack THEN "stack-grows-with-the-amount-of-data"
